@@ -258,12 +258,16 @@ def _full_batches(ctx, app):
                         ldefs.setdefault(sub.targets[0].id, []).append(
                             sub.value)
                 cands = set(N.mentions(arg))
-                for _level in range(2):
+                for _level in range(3):
                     for cand in list(cands):
                         for val in ldefs.get(cand, []):
                             if isinstance(val, (ast.ListComp, ast.Name,
                                                 ast.Call)):
                                 cands |= set(N.mentions(val))
+                        # ... or collected element by element in a loop
+                        for part in K.list_contributions(func, cand):
+                            for _t, dom in part.get('domains', []):
+                                cands |= set(N.mentions(dom))
             shorts = [N.negate(N.cmp_atom(
                 ast.parse('len(%s)' % cand, mode='eval').body, '<',
                 ast.Name(id=size))) for cand in sorted(cands)
